@@ -4,6 +4,7 @@ Property theorems only (helper lemmas live in `Lemmas/C05.lean`).
 -/
 import CobaVerif.Lemmas.C05
 import CobaVerif.Lemmas.C05Real
+import CobaVerif.Lemmas.C05Period
 import CobaVerif.Generated.LcgConsts
 
 namespace Coba.C05
@@ -34,6 +35,28 @@ theorem next_injective (s t : Nat) (hs : s < M) (ht : t < M) (h : next s = next 
 computes by modular inverse is THE boundary -/
 theorem zero_uniform_unique (s t : Nat) (hs : s < M) (ht : t < M) (h1 : unum s = 0) (h2 : unum t = 0) : s = t :=
   zero_uniform_unique' s t hs ht h1 h2
+
+/-- **full period (Hull–Dobell for m = 2^30, proved directly):** for EVERY seed the stream returns to
+its starting state after exactly the multiples of 2^30 draws — no seed has a short cycle -/
+theorem period (s : Nat) (hs : s < M) (n : Nat) : next^[n] s = s ↔ M ∣ n := period' s hs n
+
+/-- the first 2^30 states of every stream are pairwise different -/
+theorem states_distinct (s : Nat) (hs : s < M) (i j : Nat) (hi : i < M) (hj : j < M)
+    (h : next^[i] s = next^[j] s) : i = j := states_distinct' s hs i j hi hj h
+
+/-- every one of the 2^30 states is visited by every seed within one period -/
+theorem visits_every_state (s : Nat) (hs : s < M) (t : Nat) (ht : t < M) :
+    ∃ i, i < M ∧ next^[i] s = t := visits_every_state' s hs t ht
+
+/-- **exact equidistribution over a period:** for every seed and every `k < 2^30` the draw `k/2^30`
+occurs exactly once among the first 2^30 uniforms (so `random()` is exactly uniform on its grid over
+a period, and the zero uniform occurs exactly once per period for every seed) -/
+theorem uniform_each_once (s : Nat) (hs : s < M) (k : Nat) (hk : k < M) :
+    ∃ i, i < M ∧ unum (next^[i] s) = k ∧ ∀ j, j < M → unum (next^[j] s) = k → j = i :=
+  uniform_each_once' s hs k hk
+
+/-- the hypotheses are met by every normalised seed, e.g. the corpus boundary seed -/
+example : normInt 482549499 < M ∧ unum (next^[0] (normInt 482549499)) = 0 := by decide
 
 /-- a zero uniform is never followed by another one (the `while U == 0` loop in
 `_next_gaussian` runs at most once) -/
